@@ -349,6 +349,7 @@ REPLAYERS["e2"] = _replay_e2
 
 @check("C03")
 def c03(res, tier, rng, wd):
+    design_pdu(res, "C03", tier == "thorough")
     scs = e2.gen_c03(rng, tier == "thorough")
     run_e2(res, "C03", scs, wd, "c03")
     res.assumptions = E2_ASSUME + ["AddressRange is built with its constructor (struct literals bypass validation: out of the property's scope)"]
@@ -360,6 +361,7 @@ def c03(res, tier, rng, wd):
 
 @check("C04")
 def c04(res, tier, rng, wd):
+    design_pdu(res, "C04", tier == "thorough")
     scs = e2.gen_c04(rng, tier == "thorough")
     run_e2(res, "C04", scs, wd, "c04")
     res.assumptions = E2_ASSUME
@@ -427,6 +429,7 @@ def c13(res, tier, rng, wd):
 
 @check("C14")
 def c14(res, tier, rng, wd):
+    retry_object(res, "C14", wd, tier == "thorough")
     design_client(res, "C14", [], ["DelaysFollowStrategy", "AttemptNotBeforeWake"], tier == "thorough")
     scs = e2.gen_c14(rng, tier == "thorough")
     run_e2(res, "C14", scs, wd, "c14")
@@ -489,3 +492,67 @@ def design_readbuf(res, pid, thorough=False):
 
 def design_crc(res, pid, thorough=False):
     vf.design_run(res, pid, "Crc_MC", "Crc_MC.tla", "Spec", {"N": 254 if thorough else 64}, ["Lemma"], workers=1)
+
+
+def design_pdu(res, pid, thorough=False):
+    inv = ["ValidIffInLimits", "EncodeParsesBack", "PduBounded", "ReplyDecodes", "InvalidNeverExecuted"]
+    c = dict(SCALED)
+    c["Real"] = "FALSE"
+    vf.design_run(res, pid, "Pdu_MC-scaled", "Pdu_MC.tla", "Spec", c, inv)
+    r = dict(vf.REAL_CONSTS)
+    r["Real"] = "TRUE"
+    vf.design_run(res, pid, "Pdu_MC-real-boundaries", "Pdu_MC.tla", "Spec", r, inv, workers=4)
+
+
+def retry_object(res, pid, wd, thorough=False):
+    """all call sequences over {failed connect, disconnect, reset} up to a length, replayed on the real objects"""
+    import itertools
+    grid = [(1, 1), (1, 8), (10, 15), (100, 100), (100, 250), (100, 800), (3, 1000), (1000, 60000)]
+    maxlen = 7 if thorough else 6
+    sp = os.path.join(wd, "retry.scripts.ndjson")
+    tp = os.path.join(wd, "retry.trace.ndjson")
+    n = 0
+    with open(sp, "w") as f:
+        for (mn, mx) in grid:
+            for ln in range(1, maxlen + 1):
+                for seq in itertools.product("fdr", repeat=ln):
+                    f.write(json.dumps({"min": mn, "max": mx, "calls": "".join(seq)}) + "\n")
+                    n += 1
+        for ln in range(1, maxlen + 1):
+            for seq in itertools.product("fdr", repeat=ln):
+                f.write(json.dumps({"min": 1000, "max": 60000, "default_strategy": True, "calls": "".join(seq)}) + "\n")
+                n += 1
+        f.write(json.dumps({"min": 1, "max": 1000000, "calls": "f" * 25 + "r" + "f" * 3}) + "\n")
+    rc, out = vf.sh([vf.harness_bin("e3_retry"), sp, tp], timeout=600)
+    if rc != 0:
+        raise vf.ToolError("e3_retry failed: " + out[-2000:])
+    stats, rejs = vf.validate_trace("Retry.tla", "Retry.cfg", tp, wd, boundary='"call":"new"')
+    res.add_trace_stats("retry-object", stats)
+    res.evaluations += n
+    res.distinct.add("retry-object-sequences-%d" % n)
+    res.samples.append({"retry_object_script": {"min": 100, "max": 250, "calls": "ffdfrf"}})
+    for r in rejs:
+        res.violation(f"retry strategy object: call #{r['line_in_scenario']} {json.dumps(r['unmatched_event'])} after "
+                      f"{[x.get('call') for x in r['matched_prefix_tail']]} is not what Retry.tla prescribes in state {r['spec_state']}",
+                      {"property": pid, "engine": "retry-object", "trace": r["scenario_trace"], "spec_state": r["spec_state"]})
+
+
+def _replay_design(res, pid, obj, wd):
+    vf.design_run(res, pid, "replay", obj["module"], obj["spec"], obj["constants"], obj.get("invariants", ()),
+                  obj.get("properties", ()), workdir=wd)
+
+
+def _replay_retry(res, pid, obj, wd):
+    evs = [json.loads(x) for x in obj["trace"]]
+    calls = "".join({"failed": "f", "disconnect": "d", "reset": "r"}[e["call"]] for e in evs if e["call"] != "new")
+    sp, tp = os.path.join(wd, "r.s"), os.path.join(wd, "r.t")
+    open(sp, "w").write(json.dumps({"min": evs[0]["min"], "max": evs[0]["max"], "calls": calls}) + "\n")
+    rc, out = vf.sh([vf.harness_bin("e3_retry"), sp, tp])
+    stats, rejs = vf.validate_trace("Retry.tla", "Retry.cfg", tp, wd, boundary='"call":"new"')
+    for r in rejs:
+        res.violation("retry strategy object deviates from Retry.tla", {"property": pid, "engine": "retry-object",
+                                                                        "trace": r["scenario_trace"], "spec_state": r["spec_state"]})
+
+
+REPLAYERS["tlc-design"] = _replay_design
+REPLAYERS["retry-object"] = _replay_retry
